@@ -383,6 +383,78 @@ func runPadding(c *core.Ctx) []core.Obligation {
 	} else {
 		obs = append(obs, core.Ob("R-PADDING", "(s2.Cap).RectBound:poles", "-", "", core.Violated, "unresolved anchor"))
 	}
+	obs = append(obs, boundMargins(c)...)
+	return obs
+}
+
+// boundMargins (after round-6 seed C12-r6m3, the latitude half of Cell.RectBound's final expansion reduced from
+// 2*dblEpsilon to dblEpsilon while the longitude half kept it): where a bound is widened by a constant LatLng margin
+// to absorb the normalisation error of the vertices, the comment in the source derives the same 2*dblEpsilon for the
+// latitude and for the longitude. R-CONST sees the set of constants of the function, which still contains 2*dblEpsilon
+// when only one component is weakened; here every component of every such margin is evaluated on its own.
+func boundMargins(c *core.Ctx) []core.Obligation {
+	var obs []core.Obligation
+	pkg := c.Pkgs["s2"]
+	eps := 2.220446049250313e-16
+	for _, site := range []struct{ recv, name string }{{"Cell", "RectBound"}} {
+		f := c.LookupFunc("s2", site.recv, site.name)
+		construct := fmt.Sprintf("(s2.%s).%s:margin-both-components", site.recv, site.name)
+		if f == nil || c.Decl(f) == nil || pkg == nil {
+			obs = append(obs, core.Ob("R-PADDING", construct, "-", "", core.Violated, "unresolved anchor"))
+			continue
+		}
+		decl := c.Decl(f)
+		fo := &folder{c: c, pkg: pkg, decl: decl, seen: map[types.Object]bool{}}
+		n, bad := 0, ""
+		ast.Inspect(decl.Body, func(nd ast.Node) bool {
+			call, ok := nd.(*ast.CallExpr)
+			if !ok || len(call.Args) != 1 {
+				return true
+			}
+			sel, ok := call.Fun.(*ast.SelectorExpr)
+			if !ok || sel.Sel.Name != "expanded" {
+				return true
+			}
+			// the general (level > 0) branch widens the rectangle it has just assembled from the vertex extremes:
+			// Rect{lat, lng}.expanded(...). (The level-0 branch and RectBounder widen the latitude only, on purpose.)
+			if _, assembled := ast.Unparen(sel.X).(*ast.CompositeLit); !assembled {
+				return true
+			}
+			lit, ok := ast.Unparen(call.Args[0]).(*ast.CompositeLit)
+			if !ok || len(lit.Elts) != 2 {
+				return true
+			}
+			for i, el := range lit.Elts {
+				if kv, isKV := el.(*ast.KeyValueExpr); isKV {
+					el = kv.Value
+				}
+				// s1.Angle(x): fold the operand
+				if conv, isCall := ast.Unparen(el).(*ast.CallExpr); isCall && len(conv.Args) == 1 {
+					if tv, isT := pkg.TypesInfo.Types[conv.Fun]; isT && tv.IsType() {
+						el = conv.Args[0]
+					}
+				}
+				r := fo.fold(el)
+				if !r.ok {
+					continue
+				}
+				n++
+				if r.v < 2*eps*(1-1e-9) && bad == "" {
+					bad = fmt.Sprintf("component %d of the margin at %s is %.3g (%.2g * dblEpsilon)", i+1, c.Pos(call.Pos()), r.v, r.v/eps)
+				}
+			}
+			return true
+		})
+		switch {
+		case n < 2:
+			obs = append(obs, core.Ob("R-PADDING", construct, c.Pos(decl.Pos()), f.FullName(), core.Violated, "unresolved anchor: the constant margin expanded(LatLng{...}) was not found"))
+		case bad != "":
+			obs = append(obs, core.Ob("R-PADDING", construct, c.Pos(decl.Pos()), f.FullName(), core.Violated,
+				bad+": the source derives 2 * dblEpsilon for the latitude and for the longitude (normalising a vertex moves its latitude by up to 0.5 * dblEpsilon, the other error sources by 1.5 * dblEpsilon more); with less, a vertex of the cell can lie outside the cell's own bound"))
+		default:
+			obs = append(obs, core.Ob("R-PADDING", construct, c.Pos(decl.Pos()), f.FullName(), core.Discharged, fmt.Sprintf("%d margin components, each at least 2 * dblEpsilon", n)))
+		}
+	}
 	return obs
 }
 
@@ -477,22 +549,41 @@ func runRoles(c *core.Ctx) []core.Obligation {
 	} else {
 		add("CanonicalFirstVertex:lexicographic", nil, false, "", "unresolved anchor")
 	}
-	// (4) initOneLoop resets depth
-	if fn := c.Fn("s2", "Polygon", "initOneLoop"); fn != nil {
-		ok := false
-		core.AllInstrs(fn, func(in ssa.Instruction) {
-			if st, isSt := in.(*ssa.Store); isSt {
-				if fr, isF := core.AsFieldAddr(st.Addr); isF && fr.Name == "depth" {
-					if k, isK := core.ConstInt(st.Val); isK && k == 0 {
-						ok = true
-					}
+	// (4) initOneLoop resets depth. When the helper has been merged away, the single-loop path of initNested
+	// (initNested itself and what it calls, except initLoops, which assigns the depths of a nested set) must do it.
+	{
+		anchor := c.Fn("s2", "Polygon", "initOneLoop")
+		if anchor == nil {
+			anchor = c.Fn("s2", "Polygon", "initNested")
+		}
+		if anchor != nil {
+			ok := false
+			seen := map[*ssa.Function]bool{}
+			var visit func(fn *ssa.Function, depth int)
+			visit = func(fn *ssa.Function, depth int) {
+				if fn == nil || seen[fn] || depth > 2 || !core.IsGeo(fn) || fn.Name() == "initLoops" {
+					return
 				}
+				seen[fn] = true
+				core.AllInstrs(fn, func(in ssa.Instruction) {
+					if st, isSt := in.(*ssa.Store); isSt {
+						if fr, isF := core.AsFieldAddr(st.Addr); isF && fr.Name == "depth" {
+							if k, isK := core.ConstInt(st.Val); isK && k == 0 {
+								ok = true
+							}
+						}
+					}
+					if call, isC := in.(*ssa.Call); isC {
+						visit(core.StaticCallee(call), depth+1)
+					}
+				})
 			}
-		})
-		add("initOneLoop:depth", fn, ok, "the single loop's depth is reset to 0 (it is a shell of the new polygon whatever it was before)",
-			"a polygon built from one loop keeps that loop's previous depth: a loop that used to be a hole (or was decoded with depth 1) is then summed as a hole by Area/Centroid")
-	} else {
-		add("initOneLoop:depth", nil, false, "", "unresolved anchor")
+			visit(anchor, 0)
+			add("initOneLoop:depth", anchor, ok, "the single loop's depth is reset to 0 (it is a shell of the new polygon whatever it was before)",
+				"a polygon built from one loop keeps that loop's previous depth: a loop that used to be a hole (or was decoded with depth 1) is then summed as a hole by Area/Centroid and left out of the bound")
+		} else {
+			add("initOneLoop:depth", nil, false, "", "unresolved anchor")
+		}
 	}
 	// (5) ChordAngle.Add / Sub clamps
 	for _, cs := range []struct{ name, clamp string }{{"Add", "Min"}, {"Sub", "Max"}} {
@@ -1055,6 +1146,109 @@ func runConstRel(c *core.Ctx) []core.Obligation {
 		}
 		add(typ+".setMaxError:always-true", c.Pos(fn.Pos()), core.FuncName(fn), allTrue && nret > 0, "every return is true",
 			typ+".setMaxError can answer false although the sub-query keeps using the error: the outer query then treats cell distances as exact lower bounds and stops before it has seen a closer edge")
+	}
+	// (10) direction of the conservative threshold tests (after round-6 seed C08-r6m3): "less or equal, conservatively"
+	// must not miss a target whose true distance is within the limit, so the limit GROWS by the error before
+	// IsDistanceLess; "greater or equal, conservatively" SHRINKS it (the error is negated) before IsDistanceGreater.
+	for _, cs := range []struct {
+		name, inner string
+		negated     bool
+	}{{"IsConservativeDistanceLessOrEqual", "IsDistanceLess", false}, {"IsConservativeDistanceGreaterOrEqual", "IsDistanceGreater", true}} {
+		construct := "EdgeQuery." + cs.name + ":direction"
+		fn := c.Fn("s2", "EdgeQuery", cs.name)
+		if fn == nil {
+			add(construct, "-", "", false, "", "unresolved anchor")
+			continue
+		}
+		okInner, okDir, found := false, false, false
+		core.AllInstrs(fn, func(in ssa.Instruction) {
+			call, isC := in.(*ssa.Call)
+			if !isC || core.StaticCallee(call) == nil {
+				return
+			}
+			switch core.StaticCallee(call).Name() {
+			case cs.inner:
+				okInner = true
+			case "Expanded":
+				found = true
+				arg := call.Call.Args[len(call.Call.Args)-1]
+				neg := false
+				if u, isU := arg.(*ssa.UnOp); isU && u.Op == token.SUB {
+					neg, arg = true, u.X
+				}
+				if ec, isE := arg.(*ssa.Call); isE && core.StaticCallee(ec) != nil && strings.Contains(core.StaticCallee(ec).Name(), "MaxError") {
+					okDir = neg == cs.negated
+				}
+			}
+		})
+		why := "the limit is moved the wrong way by the distance error: with the error added for 'greater or equal' (or subtracted for 'less or equal') a target whose true distance equals the limit, or is within the rounding error of it, gets the answer false - the opposite of conservative"
+		if !found {
+			why = "unresolved anchor: the call of ChordAngle.Expanded was not found"
+		} else if !okInner {
+			why = "the conservative test does not end in " + cs.inner
+		}
+		add(construct, c.Pos(fn.Pos()), core.FuncName(fn), found && okInner && okDir, "the limit is widened in the direction that keeps the borderline target, then handed to "+cs.inner, why)
+	}
+	// (11) the running minimum of Polyline.Project starts above every possible distance (after round-6 seed C17-r6m3,
+	// `10 * s1.Radian` replaced by `math.Pi * s1.Radian`): the comparison is strict, so with a start value of Pi a
+	// point antipodal to a segment never replaces it, minIndex stays -1 and the function indexes out of range.
+	if fn := c.Fn("s2", "Polyline", "Project"); fn != nil {
+		construct := "(*s2.Polyline).Project:sentinel-above-pi"
+		var seen bool
+		var val float64
+		core.AllInstrs(fn, func(in ssa.Instruction) {
+			phi, isPhi := in.(*ssa.Phi)
+			if !isPhi || !core.IsNamed(phi.Type(), "s1", "Angle") {
+				return
+			}
+			for _, e := range phi.Edges {
+				if k, isK := e.(*ssa.Const); isK && k.Value != nil {
+					f, _ := constant.Float64Val(constant.ToFloat(k.Value))
+					seen, val = true, f
+				}
+				if call, isC := e.(*ssa.Call); isC && core.StaticCallee(call) != nil && core.StaticCallee(call).Name() == "InfAngle" {
+					seen, val = true, math.Inf(1)
+				}
+			}
+		})
+		if !seen {
+			add(construct, c.Pos(fn.Pos()), core.FuncName(fn), false, "", "unresolved anchor: the constant the running minimum starts from was not found")
+		} else {
+			add(construct, c.Pos(fn.Pos()), core.FuncName(fn), val > math.Pi*(1+1e-9), fmt.Sprintf("the running minimum starts at %g rad, above the largest possible distance Pi", val),
+				fmt.Sprintf("the running minimum starts at %g rad, which is not above the largest possible distance Pi: the loop replaces it only when a segment is strictly closer, so for a point at distance Pi from every segment no segment is chosen, the index stays -1 and (*p)[minIndex-1] is out of range", val))
+		}
+	} else {
+		add("(*s2.Polyline).Project:sentinel-above-pi", "-", "", false, "", "unresolved anchor")
+	}
+	// (12) the initial covering of a non-empty index is not empty (after round-6 seed C08-r6m1, the final
+	// addInitialRange moved inside the "at least two cells" branch): every path through initCovering adds a range.
+	if fn := c.Fn("s2", "EdgeQuery", "initCovering"); fn != nil {
+		construct := "(*s2.EdgeQuery).initCovering:never-empty"
+		stop := map[*ssa.BasicBlock]bool{}
+		var exit []*ssa.BasicBlock
+		for _, b := range fn.Blocks {
+			for _, in := range b.Instrs {
+				if call, isC := in.(*ssa.Call); isC && core.StaticCallee(call) != nil && core.StaticCallee(call).Name() == "addInitialRange" {
+					stop[b] = true
+				}
+			}
+			if _, isRet := b.Instrs[len(b.Instrs)-1].(*ssa.Return); isRet {
+				exit = append(exit, b)
+			}
+		}
+		ok := len(stop) > 0
+		for _, x := range exit {
+			if !stop[x] && core.ReachableAvoiding(fn.Blocks[0], x, nil, stop) {
+				ok = false
+			}
+		}
+		if stop[fn.Blocks[0]] {
+			ok = true
+		}
+		add(construct, c.Pos(fn.Pos()), core.FuncName(fn), ok, "every path through initCovering adds at least one range of index cells",
+			"initCovering can finish without adding any range (an index that is a single cell skips the only addInitialRange): the optimized search then starts from an empty covering, finds nothing, and reports no edges / an infinite distance where the exhaustive scan finds the edges of that cell")
+	} else {
+		add("(*s2.EdgeQuery).initCovering:never-empty", "-", "", false, "", "unresolved anchor")
 	}
 	_ = sort.Strings
 	return obs
